@@ -32,6 +32,9 @@ func (w *World) join(f *World, buf *bytes.Buffer) {
 	}
 }
 
+// sharedConvertBias: readers mostly convert the shared window (set for the phases with a large window).
+var sharedConvertBias bool
+
 // SharedRun performs one concurrent phase.
 // mode 0: the read-only window is a plain Slice; mode 1: it was extended by AppendSample after it was sliced (its
 // header changed after construction and nothing has looked at it since); mode 2: as 1 but its last frame is left
@@ -227,6 +230,9 @@ func SharedRun(w *World, rng *rand.Rand, ty string, ch, roFrames, wFrames, R, W,
 							f.Read(ro, BuiltinTypes[r.Intn(len(BuiltinTypes))], l)
 						}
 					}
+				} else if g < R && sharedConvertBias && len(rconvs[g]) > 0 && r.Intn(4) != 0 {
+					rc := rconvs[g][r.Intn(len(rconvs[g]))]
+					f.Convert(rc.fn, ro, rc.dst)
 				} else if g < R {
 					l := f.Views[ro].Len()
 					switch r.Intn(9) {
@@ -378,6 +384,18 @@ func driveShared(s *shardSet, rng *rand.Rand, thorough bool) ([]string, map[stri
 		SharedRun(s.Next(), rng, BuiltinTypes[(i*3)%13], 1+i%4, 1+rng.Intn(8), 1, 2+rng.Intn(7), 1, ops/2, []int{2, 4, 16}[i%3], 5)
 		extra["concurrent_phases"]++
 		extra["fresh_shared_phases"]++
+	}
+	// a LARGE shared read-only window (more than 512 / 1024 samples, not a multiple of either) that several readers
+	// convert at once through every family: block-wise conversions with pooled or shared scratch
+	for i, ty := range []string{"float32", "uint16", "float64", "int32"} {
+		if !thorough && i >= 2 && rng.Intn(2) == 0 {
+			continue
+		}
+		sharedConvertBias = true
+		SharedRun(s.Next(), rng, ty, 2, 300+rng.Intn(300), 1, 8, 1, 24, 4, 3)
+		sharedConvertBias = false
+		extra["concurrent_phases"]++
+		extra["large_shared_window_phases"]++
 	}
 	// pooled roots (mode 6): the buffer comes from a pool allocator and is first written by the concurrent writers
 	for i := 0; i < 6; i++ {
